@@ -330,22 +330,43 @@ def main():
     if not handle_variants:
         die("MutationClause::handle: no arm returns a handle")
 
-    # the text route: in parse_kip / parse_kml the validator runs on the grammar's result before it is returned
-    def route(fn, validate_re, validate_name):
+    # the text route: in parse_kip / parse_kml the validator runs on the grammar's result before it is returned.
+    # Keyed on what is called and in which order — the budget pre-scan, the KML grammar entry
+    # (`kml::parse_kml_statement`, wherever it is handed to nom), the validator call that propagates its error,
+    # the end of the function — with the private helpers of parser.rs inlined at their call sites (two levels),
+    # so that moving the nom plumbing or the tail into a helper does not change what is extracted.
+    local_fns = re.findall(r"\bfn\s+(\w+)", parser_rs)
+    not_inlined = {"validate_command", "validate_parser_budget", "parse_kip", "parse_kml", "parse_kql", "parse_meta", "parse_json"}
+
+    def expand(body, current, depth):
+        if depth == 0:
+            return body
+
+        def repl(m):
+            name = m.group(1)
+            if name != current and name not in not_inlined and local_fns.count(name) == 1:
+                return name + "{" + expand(fn_body(parser_rs, name, "parser.rs"), name, depth - 1) + "}("
+            return m.group(0)
+        return re.sub(r"(?<![:\w.])([a-z_]\w*)\s*\(", repl, body)
+
+    def route(fn, validate_call, validate_name):
         body = fn_body(parser_rs, fn, "parser.rs")
+        if re.search(r"\breturn\s+Ok\b", body):
+            die(f"{fn}: an early `return Ok` bypasses the step order")
+        text = expand(body, fn, 2)
+        propagates = r"\s*(\?|\.\s*(map|and_then|and)\s*\()"
         marks = []
-        for name, rx in [("budget", r"validate_parser_budget\s*\("), ("grammar", r"\.\s*parse\s*\(\s*input\s*\)"),
-                         (validate_name, validate_re), ("return", r"Ok\s*\(\s*\w+\s*\)\s*$")]:
-            ms = list(re.finditer(rx, body))
+        for name, rx in [("budget", r"\bvalidate_parser_budget\s*\("), ("grammar", r"\bkml\s*::\s*parse_kml_statement\b"),
+                         (validate_name, validate_call + propagates)]:
+            ms = list(re.finditer(rx, text))
             if len(ms) != 1:
                 die(f"{fn}: expected exactly one `{name}` step, found {len(ms)}")
             marks.append((ms[0].start(), name))
-        if re.search(r"\breturn\s+Ok\b", body):
-            die(f"{fn}: an early `return Ok` bypasses the step order")
+        marks.append((len(text), "return"))
         return [n for _, n in sorted(marks)]
 
-    kip_order = route("parse_kip", r"\bvalidate_command\s*\(\s*&\s*\w+\s*\)\s*\?", "validate_command")
-    kml_order = route("parse_kml", r"\bkml\s*::\s*validate_plan\s*\(\s*&\s*\w+\s*\)\s*\?", "validate_plan")
+    kip_order = route("parse_kip", r"\bvalidate_command\s*\(\s*&?\s*\w+\s*\)", "validate_command")
+    kml_order = route("parse_kml", r"\bkml\s*::\s*validate_plan\s*\(\s*&?\s*\w+\s*\)", "validate_plan")
     # validate_command: which validator a KML statement / an EXPORT CAPSULE selection is handed to
     # (looked for in validate_command and in the parser.rs helpers it calls, one level deep)
     vc = fn_body(parser_rs, "validate_command", "parser.rs")
